@@ -9,7 +9,7 @@ VARIABLE x
 Quick == IOEnv.VERIF_TIER = "quick"
 t_k == <<107>> t_v == <<118>> t_w == <<119>> t_ren == <<114,101,110>> t_nope == <<110,111,112,101>>
 fA == <<102,105,101,108,100,65>> fB == <<102,105,101,108,100,66>> fC == <<102,105,101,108,100,67>>
-fD == <<102,105,101,108,100,68>> fE == <<102,105,101,108,100,69>>
+fD == <<102,105,101,108,100,68>> fE == <<102,105,101,108,100,69>> fG == <<102,105,101,108,100,71>> fH == <<102,105,101,108,100,72>>
 t_win == <<119,105,110,100,111,119,115>> t_lin == <<108,105,110,117,120>> t_c == <<99>>
 t_tag == <<97,116,116,97,99,107,46,116,49,48,48,48>> t_tagx == <<97,116,116,97,99,107,46,120>>
 t_foo == <<102,111,111>> t_bar == <<98,97,114>> t_zz == <<122,122>>
@@ -26,7 +26,7 @@ ItemPool == <<IC("match_string", FALSE, t_foo), IC("match_string", TRUE, t_foo),
               IC("is_null", FALSE, <<>>), IC("is_null", TRUE, <<>>), IC("applied", FALSE, t_ren),
               [IC("state", FALSE, <<>>) EXCEPT !.k = t_k, !.v = t_v], [IC("state", FALSE, <<>>) EXCEPT !.k = t_k, !.v = t_w]>>
 FC(t, names, s) == [t |-> t, names |-> names, s |-> s, k |-> <<>>, v |-> <<>>]
-FieldPool == <<FC("include", <<fB>>, <<>>), FC("include", <<fC, fD>>, <<>>), FC("exclude", <<fB>>, <<>>), FC("include", <<fA>>, <<>>),
+FieldPool == <<FC("include", <<fH>>, <<>>), FC("exclude", <<fG>>, <<>>), FC("include", <<fB>>, <<>>), FC("include", <<fC, fD>>, <<>>), FC("exclude", <<fB>>, <<>>), FC("include", <<fA>>, <<>>),
                FC("exclude", <<fE, fC>>, <<>>), FC("applied", <<>>, t_ren),
                [FC("state", <<>>, <<>>) EXCEPT !.k = t_k, !.v = t_v], [FC("state", <<>>, <<>>) EXCEPT !.k = t_k, !.v = t_w]>>
 
